@@ -168,8 +168,11 @@ def guards(ctx, f_init, f_solve):
            consequence="epsilon = 1 (the clean superconductor) is rejected, or epsilon slightly above 1 accepted")
     # vector potential shape
     hit = find(lambda t: ".shape" in t and "!=" in t)
-    ok = len(hit) == 1 and norm(hit[0][1][-1][0].test).replace(" ", "") in (
-        "current_A_applied.shape!=self.edge_centers.shape", "self.edge_centers.shape!=current_A_applied.shape")
+    from ..dataflow import local_stored_in_attr
+    from ..src import rename_id
+    an = local_stored_in_attr(f_init.node, "current_A_applied") or "current_A_applied"
+    ok = len(hit) == 1 and rename_id(norm(hit[0][1][-1][0].test), an, "APPLIED").replace(" ", "") in (
+        "APPLIED.shape!=self.edge_centers.shape", "self.edge_centers.shape!=APPLIED.shape")
     ctx.ob("R19.3", "vector potential of the wrong shape is rejected", ok, detail=[norm(g[-1][0].test) for _, g in hit],
            where=f_init.fq, construct="vector potential shape guard", message="no shape guard on the evaluated vector potential",
            consequence="a mis-shaped vector potential is broadcast silently")
@@ -249,9 +252,11 @@ def guards(ctx, f_init, f_solve):
     ctx.ob("R19.3", "invalid / multiply-connected polygons are rejected by the points setter", ok, detail=txts, where=fp.fq,
            construct="polygon validity guards", message=f"polygon guards: {txts}", consequence="self-intersecting outlines reach the mesher")
     fd = repo.func("tdgl.device.device", "Device.__init__")
-    txts = [norm(gs[-1][0].test) for n, gs in raise_guards(fd) if gs]
-    need = ["terminal.name is None or terminal.name in terminal_names", "not polygon.is_valid",
-            "len(self.holes) != len(set((hole.name for hole in self.holes)))", "not self.contains_points(probe_points).all()"]
+    from ..dataflow import canon_bound_text
+    txts = [canon_bound_text(fd.node, gs[-1][0].test) for n, gs in raise_guards(fd) if gs]
+    need = ["each(self.terminals).name is None or each(self.terminals).name in L0", "not each([self.film] + self.holes).is_valid",
+            "len(self.holes) != len(set((each(self.holes).name for each(self.holes) in self.holes)))",
+            "not self.contains_points(probe_points).all()"]
     missing = [w for w in need if w not in txts]
     ctx.ob("R19.3", "device definition checks: unique terminal/hole names, valid polygons, probe points inside the film", not missing,
            detail={"found": txts, "missing": missing}, where=fd.fq, construct="device definition guards", message=f"missing device guards: {missing}",
